@@ -5,6 +5,7 @@ package broadcast
 import (
 	"container/list"
 	"context"
+	"errors"
 	"sync"
 	"time"
 
@@ -30,9 +31,11 @@ const (
 )
 
 // SimPublished is one message the protocol handed to the publishing side.
+// (Failed: the transport refused this publish)
 type SimPublished struct {
-	Topic string
-	Msg   types.Message
+	Failed bool
+	Topic  string
+	Msg    types.Message
 }
 
 // Sim is the broadcast protocol built without gossipsub: the same objects and
@@ -46,6 +49,42 @@ type Sim struct {
 	incoming chan net.SubMsg
 	mu       sync.Mutex
 	out      []SimPublished
+	failNext int
+}
+
+// FailNextPublishes makes the next n publishes fail at the transport.
+func (s *Sim) FailNextPublishes(n int) {
+	s.mu.Lock()
+	s.failNext = n
+	s.mu.Unlock()
+}
+
+func (s *Sim) onPublish(topic string, raw []byte) error {
+	var msg types.Message
+	switch topic {
+	case psTxTopic:
+		msg = &types.Transaction{}
+	case psBatchTxTopic:
+		msg = &types.Transactions{}
+	case psBlockTopic:
+		msg = &types.Block{}
+	case psLtBlockTopic:
+		msg = &types.LightBlock{}
+	default:
+		msg = &types.PeerPubSubMsg{}
+	}
+	if err := s.sub.decodeMsg(raw, nil, msg); err != nil {
+		msg = nil
+	}
+	s.mu.Lock()
+	defer s.mu.Unlock()
+	if s.failNext > 0 {
+		s.failNext--
+		s.out = append(s.out, SimPublished{Topic: topic, Msg: msg, Failed: true})
+		return errors.New("simulated transport failure")
+	}
+	s.out = append(s.out, SimPublished{Topic: topic, Msg: msg})
+	return nil
 }
 
 // NewSim mirrors broadcastProtocol.init / pubSub.init / initLightBroadcast /
@@ -78,22 +117,10 @@ func NewSim(env *protocol.P2PEnv, run func(name string, body func())) *Sim {
 	}
 	p.val = sub.val
 	run("handleSubMsg", func() { sub.handleSubMsg(s.incoming) })
-	run("collectPublished", func() {
-		for {
-			select {
-			case data, ok := <-outgoing:
-				if !ok {
-					return
-				}
-				pm := data.(publishMsg)
-				s.mu.Lock()
-				s.out = append(s.out, SimPublished{Topic: pm.topic, Msg: pm.msg})
-				s.mu.Unlock()
-			case <-p.Ctx.Done():
-				return
-			}
-		}
-	})
+	// the protocol's own publishing loop runs; what it publishes is collected at
+	// the transport seam (and may be made to fail there)
+	net.SimPublish = s.onPublish
+	run("handlePubMsg", func() { sub.handlePubMsg(outgoing) })
 
 	l := &ltBroadcast{broadcastProtocol: p}
 	l.pendBlockList = list.New()
